@@ -109,7 +109,10 @@ fn sentence_cases(ctx: &mut Ctx, cfg: &Cfg, s: &Sentence, foreign: &[Tok]) {
         return;
     };
     ctx.out.add("sentences", 1);
-    if !base.is_ok() {
+    if fam.starts_with("neg.") {
+        // written to be refused: only the agreement of the entry points is demanded
+        ctx.out.add(if base.is_ok() { "negative_sentences_accepted" } else { "negative_sentences_refused" }, 1);
+    } else if !base.is_ok() {
         ctx.out.add("base_rejected", 1);
         if ctx.out.notes.len() < 5 {
             ctx.out.notes.push(format!("base sentence refused [{fam}]: {base_text} => {}", base.brief()));
